@@ -880,7 +880,18 @@ func (fc *FnCtx) renderSpecs() {
 var specSymRe = regexp.MustCompile(`spec\.[A-Za-z0-9_.]+`)
 
 // specText renders the definitions of the spec functions whose symbols occur in `text` (transitively).
-func (fc *FnCtx) specText(text string, axiomEnc bool) []string {
+// encodings of the spec functions in a query: recursive definitions (define-funs-rec), uninterpreted functions with
+// unfolding axioms (triggered on the application), or recursive functions left uninterpreted (encOpaque: sound for
+// proving - fewer facts - and the one that lets the solvers finish when a quantified invariant speaks about a
+// recursive position function whose unfolding is not needed for the step at hand)
+const (
+	encRec = iota
+	encAx
+	encOpaque
+	encLean
+)
+
+func (fc *FnCtx) specText(text string, enc int) []string {
 	need := map[string]bool{}
 	var work []string
 	for _, m := range specSymRe.FindAllString(text, -1) {
@@ -915,7 +926,7 @@ func (fc *FnCtx) specText(text string, axiomEnc bool) []string {
 	if len(rs) == 0 {
 		return nil
 	}
-	if axiomEnc {
+	if enc == encAx {
 		for _, r := range rs {
 			out = append(out, fmt.Sprintf("(declare-fun %s (%s) %s)", specSym(r.name), r.sig, r.ret))
 		}
@@ -1003,7 +1014,13 @@ func (fc *FnCtx) specText(text string, axiomEnc bool) []string {
 					sigs = append(sigs, fmt.Sprintf("(%s (%s) %s)", specSym(rs[c].name), rs[c].params, rs[c].ret))
 					bodies = append(bodies, rs[c].body)
 				}
-				if len(sigs) > 0 {
+				if len(sigs) > 0 && enc == encOpaque {
+					for _, c := range comp {
+						if rs[c].body != "" {
+							out = append(out, fmt.Sprintf("(declare-fun %s (%s) %s)", specSym(rs[c].name), rs[c].sig, rs[c].ret))
+						}
+					}
+				} else if len(sigs) > 0 {
 					out = append(out, fmt.Sprintf("(define-funs-rec (%s) (%s))", strings.Join(sigs, " "), strings.Join(bodies, " ")))
 				}
 			}
